@@ -50,9 +50,10 @@ MIRI_GROUPS_EXTRA = [  # thorough only, fewer seeds
 ]
 
 TIERS = {
-    "quick": dict(native_timeout=600, tsan_timeout=300, native_threads=12, native_iters=100, miri_seeds=4, miri_procs_per_group=1, miri_extra_seeds=0,
+    "quick": dict(miri_main_groups=4, native_timeout=600, tsan_timeout=300, native_threads=12, native_iters=100, miri_seeds=4, miri_procs_per_group=1, miri_extra_seeds=0,
                   miri_threads=3, miri_iters=1, tsan_runs=0, tsan_threads=8, tsan_iters=10),
-    "thorough": dict(native_timeout=3600, tsan_timeout=300, native_threads=16, native_iters=1000, miri_seeds=64, miri_procs_per_group=4, miri_extra_seeds=8,
+    # thorough: 64 seeds on the first three groups, 8 seeds on every other group (~8 min of Miri on 16 cores)
+    "thorough": dict(miri_main_groups=3, native_timeout=3600, tsan_timeout=300, native_threads=16, native_iters=1000, miri_seeds=64, miri_procs_per_group=4, miri_extra_seeds=8,
                      miri_threads=3, miri_iters=1, tsan_runs=5, tsan_threads=8, tsan_iters=10),
 }
 
@@ -543,9 +544,10 @@ def main():
         # (c) Miri
         if only_stage in (None, "miri"):
             first = (seed % 1000) * 64
-            plan = [(g, first, cfg["miri_seeds"], cfg["miri_procs_per_group"]) for g in MIRI_GROUPS_QUICK]
+            k = cfg["miri_main_groups"]
+            plan = [(g, first, cfg["miri_seeds"], cfg["miri_procs_per_group"]) for g in MIRI_GROUPS_QUICK[:k]]
             if cfg["miri_extra_seeds"]:
-                plan += [(g, first, cfg["miri_extra_seeds"], 1) for g in MIRI_GROUPS_EXTRA]
+                plan += [(g, first, cfg["miri_extra_seeds"], 1) for g in MIRI_GROUPS_QUICK[k:] + MIRI_GROUPS_EXTRA]
             if replay_j and only_stage == "miri":
                 d = replay_j["violation"]["detail"]
                 plan = [(d["rows"], d["seed_range"][0], d["seed_range"][1] - d["seed_range"][0], 1)]
